@@ -265,6 +265,15 @@ def Setup.st (S : Setup) (K : Nat) (p : Obj) : Option Obj :=
 /-- `converter.structure(converter.unstructure(x, unstructure_as=K), K)` -/
 def Setup.roundTrip (S : Setup) (K : Nat) (x : Obj) : Option Obj := (S.un K x).bind (S.st K)
 
+/-! ## applying the strategy again (same converter, or a copy of it, possibly after the hierarchy has grown)
+
+Without `overrides` the strategy fetches the per-class hooks with `converter.get_*_hook(cl)`; on a converter the
+strategy was applied to before, that returns — for a class the earlier application registered hooks for — those
+strategy hooks (the predicates `cls is cl` are still in the dispatcher; newer registrations only shadow them). -/
+def Setup.hooksAfter (S : Setup) (plain : Tagged.Hooks) : Tagged.Hooks :=
+  { un := fun c x => if S.tr.unionClasses.contains c then S.un c x else plain.un c x
+    st := fun c p => if S.tr.unionClasses.contains c then S.st c p else plain.st c p }
+
 /-! ## specification vocabulary (used by the property statements) -/
 
 /-- An inner class's own literal values (under the discriminator chosen for its reduced union) are carried by
